@@ -228,6 +228,37 @@ class _LeafEnv(dict):
         return ('leaf', v)
 
 
+def ctor_forwarding(ctx, py):
+    """an interpreter class that refines the constructor hands each of its own parameters to the parent's parameter of the SAME
+    name (positionally or by keyword): `super().__init__(phase, out, claims, proof_out, claim_out)` writes the claims into the proof
+    stream and the proof into the claim stream although every call still type-checks"""
+    n = 0
+    for mi in py.modules.values():
+        for ci in mi.classes.values():
+            chain = py.mro(ci)
+            if not any(c.name == 'Interpreter' for c in chain) or '__init__' not in ci.methods:
+                continue
+            fn = ci.methods['__init__']
+            own = [a.arg for a in fn.args.args[1:] + fn.args.kwonlyargs]
+            parent = next((c for c in chain[1:] if '__init__' in c.methods), None)
+            if parent is None:
+                continue
+            pparams = [a.arg for a in parent.methods['__init__'].args.args[1:]]
+            for call in [c for c in ast.walk(fn) if isinstance(c, ast.Call) and isinstance(c.func, ast.Attribute) and c.func.attr == '__init__'
+                         and isinstance(c.func.value, ast.Call) and isinstance(c.func.value.func, ast.Name) and c.func.value.func.id == 'super']:
+                if any(isinstance(a, ast.Starred) for a in call.args) or any(k.arg is None for k in call.keywords):
+                    continue
+                got = dict(zip(pparams, call.args))
+                got.update({k.arg: k.value for k in call.keywords})
+                wrong = [f'`{q}` receives `{ast.unparse(v)}`' for q, v in got.items()
+                         if isinstance(v, ast.Name) and v.id in own and q in own and v.id != q]
+                n += 1
+                ctx.ob('override-chain', f'{ci.name}.__init__/forwards-by-name', not wrong,
+                       f'{ci.name}.__init__ hands its parameters to {parent.name}.__init__ under other names: ' + '; '.join(wrong)
+                       + ' - the streams / state the interpreter was given are exchanged', py.where(ci.module, call))
+    ctx.require(n >= 3, 'anchor vanished: interpreter constructors that call super().__init__')
+
+
 def walk_order(ctx, py, w):
     """Interpreter.pattern pushes the operands of a constructor by interpreting the sub-patterns; the ORDER of those recursive calls
     is the order of the stack slots the tracking interpreters check (`expected_x = self.stack[-k]`).  The conclusion-only
@@ -282,6 +313,58 @@ def walk_order(ctx, py, w):
         ctx.ob('walk-order', f'pattern/{meth}', not probs,
                f'Interpreter.pattern, {meth} arm: ' + '; '.join(probs) + ' - interpreters without a stack accept the call, the tracking ones '
                f'raise', where, facts={'order': [show(v)[:40] for _i, v in recs], 'tracker slots': slot_of})
+    # ... and what is rebuilt is the pattern itself: the conclusion-only interpreter's method builds C(c_1 .. c_k) from its
+    # parameters; with the arguments the walker passes (a recursive `self.pattern(x)` rebuilds x - induction) every component must be
+    # the same-named field of the pattern walked.  A swap of two scalar operands of one arm (the positive / negative lists of a
+    # metavariable) publishes another pattern than the one declared although every interpreter accepts the call.
+    P = ('param', fn.args.args[1].arg)
+    basic = py.cls('BasicInterpreter')
+    n_rebuilt = 0
+
+    def strip_walk(v):
+        if isinstance(v, tuple) and len(v) >= 3 and v[0] == 'call' and v[1] == ('attr', SELF, 'pattern') and len(v[2]) == 1:
+            return v[2][0]
+        return v
+
+    def subst(v, table):
+        if isinstance(v, tuple) and len(v) == 2 and v[0] == 'param' and v[1] in table:
+            return table[v[1]]
+        if isinstance(v, tuple):
+            return tuple(subst(x, table) if isinstance(x, tuple) else x for x in v)
+        return v
+
+    for p in PyEval().paths(fn):
+        if p.end[0] != 'return' or p.end[1][0] != 'call' or p.end[1][1][0] != 'attr' or p.end[1][1][1] != SELF:
+            continue
+        meth, args = p.end[1][1][2], p.end[1][2]
+        subj = [c[2][1][1] for c, b in p.conds if b and c[0] == 'call' and c[1] == ('name', 'isinstance') and c[2][0] == P and c[2][1][0] == 'name']
+        if len(subj) != 1 or meth not in basic.methods:
+            continue
+        bm = basic.methods[meth]
+        bparams = [a.arg for a in bm.args.args[1:]]
+        rets = [q.end[1] for q in PyEval().paths(bm) if q.end[0] == 'return']
+        built = [r for r in rets if r[0] == 'call' and r[1] == ('name', subj[0]) and not r[3]]
+        ci_ = py.find_class(subj[0], 'pattern')
+        if len(rets) != 1 or len(built) != 1 or ci_ is None or len(bparams) != len(args):
+            continue
+        fields = [f for f, _t in ci_.fields]
+        table = {q: strip_walk(a) for q, a in zip(bparams, args)}
+        probs = []
+        for j, c_ in enumerate(built[0][2]):
+            if j >= len(fields):
+                break
+            v = subst(c_, table)
+            want = ('attr', P, fields[j])
+            wrapped = v[0] == 'call' and v[1][0] == 'name' and v[1][1] in ('EVar', 'SVar') and len(v[2]) == 1 and v[2][0] == ('attr', want, 'name')
+            # frozendict(m) of a map m is that map (value equality)
+            remapped = v[0] == 'call' and v[1] == ('name', 'frozendict') and v[2] == (want,) and not v[3]
+            if v != want and not wrapped and not remapped:
+                probs.append(f'component `{fields[j]}` of the rebuilt {subj[0]} is `{show(v)[:50]}`')
+        n_rebuilt += 1
+        ctx.ob('walk-order', f'pattern/{meth}/rebuilds-the-pattern', not probs,
+               f'Interpreter.pattern, {meth} arm: ' + '; '.join(probs) + f' - what is interpreted (and published) is not the {subj[0]} that '
+               f'was declared', where)
+    ctx.require(n_rebuilt >= 6, 'Interpreter.pattern: the arms that rebuild a constructor from its own fields were not recognised')
     ctx.floor('walk-order', 8)
 
 
@@ -333,6 +416,12 @@ def super_calls_same_method(ctx, py):
                         else:
                             kw_ok = False
                     ok = sname == mname and kw_ok and tuple(got) == tuple(('param', p_) for p_ in params)
+                    # def m(self, *args, **kwargs): super().m(*args, **kwargs) forwards everything it was given
+                    va, ka = fn.args.vararg, fn.args.kwarg
+                    if not params and va is not None and ka is not None and sname == mname \
+                            and tuple(sargs) in ((('star', ('param', va.arg)),), (('star', ('param', '*' + va.arg)),)) \
+                            and tuple(skw) in (((None, ('param', ka.arg)),), ((None, ('param', '**' + ka.arg)),)):
+                        ok = True
                     ctx.ob('super-same-method', f'{ci.name}.{mname}', ok,
                            f'{ci.name}.{mname} delegates to super().{sname}({", ".join(_show(a) for a in sargs)}); an interpreter refines a call '
                            f'by calling the same method of its parent with the same arguments ({mname}({", ".join(params)}))',
@@ -390,6 +479,7 @@ def run(ctx):
                f'(BasicInterpreter.instantiate, InstantiationOptimizer) have: instantiate(pf, {{}}) succeeds under the conclusion-only '
                f'interpreter and trips the tracker', py.where(w.stateful.module, mf.node))
     walk_order(ctx, py, w)
+    ctor_forwarding(ctx, py)
     tracker_compares_structurally(ctx, py, w)
     # the serialising interpreter (plain or under the memoiser) means the same as the others only if what it writes is what the
     # checker reads: the Instantiate operands pair id i with plug i, and the memoiser never needs a slot a one-byte operand cannot
